@@ -597,6 +597,17 @@ fn probe_collisions(o: &mut Outcome, plain: &Path, scratch: &Path) {
         let lost = !anywhere(&d, a);
         o.probes.push(json!({"id": "F20c", "fails": lost, "what": "rustfmt --backup x.tmp: the temporary is the file itself; the write destroys the original, the last rename fails (exit 1) and x.bk holds the formatted text", "detail": format!("{}; after: {}", r.status_word(), listing(&d))}));
     }
+    {
+        // one file reached under two spellings of its path (C13's finding F13e): it is emitted twice, and the second
+        // emission backs up the text the first one wrote
+        let d = cli::fresh_dir(scratch, "probe_twice");
+        std::fs::create_dir_all(d.join("sub")).unwrap();
+        std::fs::write(d.join("lib.rs"), "mod a;\n#[path = \"sub/../a.rs\"]\nmod b;\n").unwrap();
+        std::fs::write(d.join("a.rs"), a).unwrap();
+        let r = cli::rustfmt(plain, &d, &["--backup", "lib.rs"]);
+        let lost = !anywhere(&d, a);
+        o.probes.push(json!({"id": "F20d", "fails": lost, "what": "rustfmt --backup lib.rs where lib.rs reaches a.rs twice (`mod a;` and `#[path = \"sub/../a.rs\"] mod b;`): a.rs is emitted twice and the second backup renames the already formatted a.rs over a.bk; no copy of the original is left", "detail": format!("{}; after: {}", r.status_word(), listing(&d))}));
+    }
 }
 
 // ------------------------------------------------------------------------------------------------
